@@ -4,9 +4,9 @@ import builtins
 import inspect
 
 from . import smt
-from .terms import (And, Or, Not, Implies, Ite, Eq, asV, asB, asI, asS, mkB, mkI, mkS, TRUE, FALSE,
+from .terms import (mseq, And, Or, Not, Implies, Ite, Eq, asV, asB, asI, asS, mkB, mkI, mkS, TRUE, FALSE,
                     const_term, seq_of_terms, KIND_OF_PY)
-from .values import (Val, PyC, PyList, SymObj, SDict, Closure, BM, Exc, OutOfSubset, fresh_name)
+from .values import (CondList, Val, PyC, PyList, SymObj, SDict, Closure, BM, Exc, OutOfSubset, fresh_name)
 
 
 def is_exc(v):
@@ -123,6 +123,16 @@ class ExprMixin:
                     else:
                         ent[k] = (Ite(d, ca, cb), join(va, vb))
                 return SDict(ent)
+            if isinstance(a, (PyList, CondList)) and isinstance(b, (PyList, CondList)) and getattr(a, "kind", "list") == "list" \
+                    and getattr(b, "kind", "list") == "list" and (isinstance(a, CondList) or isinstance(b, CondList) or len(a.items) != len(b.items)):
+                # lists grown by appends on the two sides of a branch: common prefix, then each side's extra entries under
+                # that side's condition (the two groups are mutually exclusive, so their relative order is immaterial)
+                ea = a.entries if isinstance(a, CondList) else [(TRUE, x) for x in a.items]
+                eb = b.entries if isinstance(b, CondList) else [(TRUE, x) for x in b.items]
+                n = 0
+                while n < len(ea) and n < len(eb) and ea[n][0] == eb[n][0] and ea[n][1] is eb[n][1]:
+                    n += 1
+                return CondList(ea[:n] + [(And(d, c_), x) for c_, x in ea[n:]] + [(And(Not(d), c_), x) for c_, x in eb[n:]])
             if isinstance(a, (Closure, BM)) or isinstance(b, (Closure, BM)) or isinstance(a, dict) or isinstance(b, dict):
                 raise OutOfSubset("join of python-side values")
             if isinstance(a, SymObj) or isinstance(b, SymObj):
@@ -140,6 +150,9 @@ class ExprMixin:
             for k in s1.env:
                 if k in s2.env:
                     env[k] = join(s1.env[k], s2.env[k])
+            if ("__yield__" in s1.env) != ("__yield__" in s2.env):
+                # the generator's accumulated output: unbound means nothing yielded so far on that side
+                env["__yield__"] = join(s1.env.get("__yield__", PyList([], "list")), s2.env.get("__yield__", PyList([], "list")))
             if set(s1.env) != set(s2.env):
                 # a name bound on one side only stays unbound after the join (reading it would be an error anyway)
                 pass
@@ -557,6 +570,10 @@ class ExprMixin:
                 st.assume(Eq(r.t, cat), fact=True)
                 st.assume(f"(= (seq.len {sr}) (+ (seq.len {sa}) (seq.len {sb})))", fact=True)
                 st.assume(f"(forall (({q} Int)) (! (=> (and (<= 0 {q}) (< {q} (seq.len {sr}))) (= (seq.nth {sr} {q}) (ite (< {q} (seq.len {sa})) (seq.nth {sa} {q}) (seq.nth {sb} (- {q} (seq.len {sa})))))) :pattern ((seq.nth {sr} {q}))))", fact=True)
+                if ka == "list":
+                    # identity membership distributes over concatenation (IS-MEM)
+                    x = fresh_name("x")
+                    st.assume(f"(forall (({x} V)) (! (= (ismem (lseq {r.t}) {x}) (or (ismem {mseq(sa)} {x}) (ismem {mseq(sb)} {x}))) :pattern ((ismem (lseq {r.t}) {x}))))", fact=True)
                 return [(st, r)]
             if ka == "int" and kb == "int":
                 return [(st, mkI(f"(+ {asI(la)} {asI(lb)})"))]
